@@ -8,7 +8,7 @@ from ..cfg import CFG
 from ..interp import Callee, Frame
 from ..model import AnalysisError, FuncInfo, norm
 from ..prov import Canon, canon, message_param
-from .common import Ctx, callee_names, fkey
+from .common import Ctx, OnlyRule, callee_names, fkey
 from . import tables
 
 NODE_T = "aiomysensors.model.node.Node"
@@ -45,6 +45,7 @@ def run(ctx: Ctx, chk) -> None:
     chk.run_rule(reject_set, ctx)
     chk.run_rule(tables.handler_state_rule, ctx)
     chk.run_rule(ctor_identity, ctx)
+    chk.run_rule(placeholder_fresh, ctx)
 
 
 # ---------------------------------------------------------------------------
@@ -203,8 +204,17 @@ def prov_reg(ctx: Ctx, chk) -> None:
             n += 1
             chk.instance(rule)
             got: list[tuple[str, FuncInfo, ast.AST]] = []
-            for f in tables.chain_and_helpers(ctx, callee, V):
-                for ev, node in registry_events(ctx, f):
+            fs = tables.chain_and_helpers(ctx, callee, V)
+            written_out: set = set()
+            fis = []
+            for f in fs:
+                fi = ctx.inl(f, lambda h: not h.name.startswith("handle_"))  # helper bodies are judged where they are called
+                fis.append((f, fi))
+                written_out |= set(getattr(fi, "inlined", []))
+            for f, fi in fis:
+                if f.qualname in written_out and f is not callee.chain()[-1].func:
+                    continue  # a helper whose statements already appear in its caller
+                for ev, node in registry_events(ctx, fi):
                     got.append((ev, f, node))
             key = f"{name}@{V}"
             missing = [alts for alts in want if not any(g[0] in alts for g in got)]
@@ -491,6 +501,29 @@ def who_reg(ctx: Ctx, chk) -> None:
         others = [g_ for g_ in ctx.prog.all_functions() if g_.cls is not f.cls and any(isinstance(x, ast.Attribute) and x.attr == f.name for x in ctx.own_nodes(g_))]
         if callers and not others and all(g_.fq in allowed_funcs for g_ in callers):
             allowed_funcs.add(f.fq)
+    # a private module-level function (private name, or any function of a private module) every reference to which is
+    # in an allowed writer is part of them (a helper shared by two handlers, possibly of another protocol module)
+    changed = True
+    while changed:
+        changed = False
+        for f in ctx.prog.all_functions():
+            if f.cls is not None or f.parent is not None or f.fq in allowed_funcs:
+                continue
+            if not (f.name.startswith("_") or f.module.name.rsplit(".", 1)[-1].startswith("_")) or f.name.startswith("__"):
+                continue
+            users = []
+            for g_ in ctx.prog.all_functions():
+                if g_ is f:
+                    continue
+                for x in ctx.own_nodes(g_):
+                    if isinstance(x, ast.Name) and x.id == f.name and isinstance(x.ctx, ast.Load):
+                        d = ctx.prog.resolve_expr(g_.module, x)
+                        if d is not None and d.kind == "func" and d.obj is f:
+                            users.append(g_)
+                            break
+            if users and all(g_.fq in allowed_funcs for g_ in users):
+                allowed_funcs.add(f.fq)
+                changed = True
     n = 0
     for f in ctx.prog.all_functions():
         if f.module.name.startswith("aiomysensors.cli"):
@@ -639,6 +672,8 @@ def listen1(ctx: Ctx, chk) -> None:
         n += 1
         chk.instance(rule)
         bad = None
+        f_src = f
+        f = ctx.inl(f, lambda h: not h.name.startswith("handle_"))  # `return cls._helper(gateway, message, ...)` written out
         for node in ctx.own_nodes(f):
             if isinstance(node, ast.Return):
                 v = node.value
@@ -671,3 +706,26 @@ def listen1(ctx: Ctx, chk) -> None:
         else:
             chk.refute(rule, k, f"{f.qualname} {bad[1]}: the yielded message no longer carries the decoded field values", ctx.loc(f, bad[0]))
     chk.floor(rule, "handler definitions", n, 25)
+
+
+def placeholder_fresh(ctx: Ctx, chk) -> None:
+    """The placeholder of an id request is stored under a key the registry does not hold (else it overwrites a
+    presented node): the allocation analysis of C11 (FRESH-1), applied to the store of the placeholder."""
+    from . import c11
+
+    I = ctx.I
+    cells = tables.handler_cells(ctx)
+    proxy = OnlyRule(chk, "FRESH-1", "PLACEHOLDER-FRESH", " - the placeholder stored under that id then replaces a node the network had presented (its type, version, children and values are lost)", "the placeholder node of an id request is stored under an id that is not a key of the registry (max + c, or a candidate filtered by `not in gateway.nodes`): a registered node is never replaced by a placeholder")
+    done = set()
+    for V in ctx.versions:
+        idreq = next((v for v, n in I.folder.enum_canonical(I.vclass(V, "Internal")).items() if n == "I_ID_REQUEST"), None)
+        cal = cells[V].get(("internal", idreq))
+        if cal is None:
+            continue
+        f = cal.chain()[-1].func
+        if f in done:
+            continue
+        done.add(f)
+        c11.check_allocator(ctx, proxy, f, V)
+    if not done:
+        raise AnalysisError("PLACEHOLDER-FRESH: anchor vanished: id request handler")
